@@ -83,6 +83,14 @@ func e2ePoints(d *vCtx) error {
 					}
 				}
 			}
+			// the destination runs full just before the piece that completes the first file is written, and the writer
+			// stays there for longer than the final-acknowledgement loop's polling interval
+			for _, k := range kinds {
+				if k == "dstfull" {
+					jobs = append(jobs, job{c, e2ePlan{Point: &e2ePoint{Name: "pipe.sav.got", Total: int(c.Nodes[0].Size), SettleMs: 50, Kind: k, ReleaseMs: 700}, CheckLeft: true}})
+					jobs = append(jobs, job{c, e2ePlan{Point: &e2ePoint{Name: "pipe.sav.got", Nth: 2, SettleMs: 50, Kind: k, ReleaseMs: 300}, CheckLeft: true}})
+				}
+			}
 			if c.Tag == "few" {
 				continue
 			}
@@ -96,6 +104,9 @@ func e2ePoints(d *vCtx) error {
 				}
 				for _, nth := range nths {
 					for _, k := range kinds {
+						if k == "dstfull" {
+							continue
+						}
 						pt := &e2ePoint{Name: p, Nth: nth, SettleMs: 150, Kind: k, ReleaseMs: 200}
 						switch k {
 						case "silence":
